@@ -22,48 +22,42 @@ it fits a u64. -/
 theorem lowerInt_value (s : Spelling) (hwf : s.wf = true) (n : Nat)
     (h : lowerInt s.kind s.text = .ok n) : n = value s ∧ n < 2 ^ 64 := by
   rw [lowerInt_spec s hwf] at h
-  by_cases hz : s.zeroTimesHugePower = true
-  · simp [hz] at h
-  · by_cases hv : value s < U64
-    · simp only [hz, hv, if_true] at h
-      have h' : value s = n := by simpa using h
-      exact ⟨h'.symm, by rw [← h']; exact hv⟩
-    · simp [hz, hv] at h
+  by_cases hv : value s < U64
+  · simp only [hv, if_true] at h
+    have h' : value s = n := by simpa using h
+    exact ⟨h'.symm, by rw [← h']; exact hv⟩
+  · simp [hv] at h
 
 /-- The lowering of a lexed literal never hits an `unwrap()` on `None`. -/
 theorem lowerInt_no_panic (s : Spelling) (hwf : s.wf = true) :
     lowerInt s.kind s.text ≠ .panic := by
   rw [lowerInt_spec s hwf]
-  by_cases hz : s.zeroTimesHugePower = true
-  · simp [hz]
-  · by_cases hv : value s < U64 <;> simp [hz, hv]
+  by_cases hv : value s < U64 <;> simp [hv]
 
-/-- **Rejection is exactly overflow** — for every spelling outside the family `0e20`
-(mantissa 0, exponent ≥ 20). -/
-theorem lowerInt_overflow_iff_partial (s : Spelling) (hwf : s.wf = true)
-    (hguard : s.zeroTimesHugePower = false) :
+/-- **Rejection is exactly overflow**, for every well-formed spelling (full since the `0eN` fix). -/
+theorem lowerInt_overflow_iff (s : Spelling) (hwf : s.wf = true) :
     lowerInt s.kind s.text = .outOfRange ↔ 2 ^ 64 ≤ value s := by
   rw [lowerInt_spec s hwf]
   have h64 : (2:Nat) ^ 64 = U64 := by decide
   rw [h64]
   by_cases hv : value s < U64
-  · simp [hguard, hv]
-  · simp [hguard, hv]; omega
+  · simp [hv]
+  · simp [hv]; omega
 
-/-- … and inside that family the full statement is false: `0e20` spells 0 but is refused
-(`10_u64.checked_pow(20)` overflows before the multiplication by 0). -/
-theorem lowerInt_overflow_iff_counterexample :
-    ∃ s : Spelling, s.wf = true ∧ value s = 0 ∧ lowerInt s.kind s.text = .outOfRange :=
-  ⟨.dec ['0'] (some (false, ['2', '0'])), by decide, by decide, by decide⟩
+/-- At the pin the statement was false: `0e20` spells 0 but `lowerIntOld` refuses it
+(`10_u64.checked_pow(20)` overflows before the multiplication by 0); the repaired lowering accepts it. -/
+theorem lowerIntOld_overflow_counterexample :
+    ∃ s : Spelling, s.wf = true ∧ s.zeroTimesHugePower = true ∧ value s = 0 ∧
+      lowerIntOld s.kind s.text = .outOfRange ∧ lowerInt s.kind s.text = .ok 0 :=
+  ⟨.dec ['0'] (some (false, ['2', '0'])), by decide, by decide, by decide, by decide, by decide⟩
 
-/-- A spelling is accepted by the lowering iff its value is below 2^64 (same guard). -/
-theorem lowerInt_accepts_iff_partial (s : Spelling) (hwf : s.wf = true)
-    (hguard : s.zeroTimesHugePower = false) :
+/-- A spelling is accepted by the lowering iff its value is below 2^64. -/
+theorem lowerInt_accepts_iff (s : Spelling) (hwf : s.wf = true) :
     lowerInt s.kind s.text = .ok (value s) ↔ value s < 2 ^ 64 := by
   rw [lowerInt_spec s hwf]
   have h64 : (2:Nat) ^ 64 = U64 := by decide
   rw [h64]
-  by_cases hv : value s < U64 <;> simp [hguard, hv]
+  by_cases hv : value s < U64 <;> simp [hv]
 
 /-! ## escapes, strings, chars -/
 
